@@ -35,7 +35,10 @@ func (proj *SR) getDatum() *datum {
 	}
 
 	if len(proj.DatumParams) > 0 {
-		this.datum_params = proj.DatumParams
+		// The parameters are converted to radians and a scale factor below;
+		// work on a copy so that the exported field keeps the values that
+		// were given (arc seconds and parts per million).
+		this.datum_params = append([]float64{}, proj.DatumParams...)
 		if this.datum_params[0] != 0 || this.datum_params[1] != 0 || this.datum_params[2] != 0 {
 			this.datum_type = pjd3Param
 		}
